@@ -546,9 +546,15 @@ func (x *Exec) run(fn *ssa.Function, args []Value, st *State, pcIn *Term) (Value
 	var rets []edge
 	var retVals []Value
 	var loops *loopCtx
+	concrete := false // a loop without invariant: followed concretely (every branch condition must fold)
 	if len(fi.headers) > 0 {
-		loops = x.newLoopCtx(fn, fi)
+		if c := x.ld.contractFor(fn); c == nil || len(c.Loops) == 0 {
+			concrete = true
+		} else {
+			loops = x.newLoopCtx(fn, fi)
+		}
 	}
+	entered := false
 	var get func(v ssa.Value) Value
 	get = func(v ssa.Value) Value {
 		switch c := v.(type) {
@@ -579,10 +585,11 @@ func (x *Exec) run(fn *ssa.Function, args []Value, st *State, pcIn *Term) (Value
 		}
 		return r
 	}
-	for _, blk := range fi.order {
+	processBlock := func(blk *ssa.BasicBlock) {
 		var pc *Term
 		var cur *State
-		if blk == fn.Blocks[0] {
+		if blk == fn.Blocks[0] && !entered {
+			entered = true
 			pc, cur = pcIn, st
 		} else {
 			edges := in[blk]
@@ -599,7 +606,7 @@ func (x *Exec) run(fn *ssa.Function, args []Value, st *State, pcIn *Term) (Value
 				pc, cur = x.mergeStates(edges)
 			}
 			if cur == nil {
-				continue
+				return
 			}
 		}
 		cur = &State{h: cur.h.clone(), defers: cur.defers, facts: cur.facts}
@@ -823,6 +830,50 @@ func (x *Exec) run(fn *ssa.Function, args []Value, st *State, pcIn *Term) (Value
 			default:
 				unsupported("instruction %T (%s) in %s", ins, ins.String(), fn.Name())
 			}
+		}
+	}
+	if !concrete {
+		for _, blk := range fi.order {
+			processBlock(blk)
+		}
+	} else {
+		// Exact unrolling: follow the one successor whose edge condition folded
+		// to true.  A loop whose exit test does not fold at some iteration is
+		// outside the subset (it needs an invariant).
+		blk := fn.Blocks[0]
+		for steps := 0; blk != nil; steps++ {
+			if steps > 200000 {
+				unsupported("loop in %s does not terminate within the unrolling limit", fnKey(fn))
+			}
+			nret := len(rets)
+			processBlock(blk)
+			for k := range in[blk] {
+				in[blk][k] = edge{} // consumed
+			}
+			if len(rets) > nret {
+				break
+			}
+			var next *ssa.BasicBlock
+			for _, s := range blk.Succs {
+				for k, p := range s.Preds {
+					if p != blk {
+						continue
+					}
+					e := in[s][k]
+					if e.cond == nil {
+						continue
+					}
+					switch {
+					case e.cond == pcIn || e.cond.Op == "true":
+						next = s
+					case e.cond.Op == "false":
+						in[s][k] = edge{}
+					default:
+						unsupported("loop in %s without a loop contract: a branch condition does not fold to a constant (an invariant is needed)", fnKey(fn))
+					}
+				}
+			}
+			blk = next
 		}
 	}
 	if len(rets) == 0 {
